@@ -19,6 +19,7 @@ type liveMPDType int
 
 const (
 	MAX_TIME_SHIFT_BUFFER_DEPTH_S = 48 * 3600
+	maxEpochTimeS                 = 1 << 40 // about 35000 years
 )
 
 const (
@@ -422,6 +423,12 @@ cfgLoop:
 func verifyAndFillConfig(cfg *ResponseConfig, nowMS int) error {
 	if nowMS < 0 {
 		return fmt.Errorf("nowMS must be >= 0")
+	}
+	if cfg.StopTimeS != nil {
+		// times are multiplied by 1000 and by timescales: keep them far from integer overflow
+		if *cfg.StopTimeS < cfg.StartTimeS || *cfg.StopTimeS > maxEpochTimeS {
+			return fmt.Errorf("stop time %ds is before start time %ds or too large", *cfg.StopTimeS, cfg.StartTimeS)
+		}
 	}
 	if cfg.SegTimelineNrFlag && cfg.SegTimelineFlag {
 		return fmt.Errorf("SegmentTimelineTime and SegmentTimelineNr cannot be used at same time")
